@@ -11,6 +11,7 @@
 import TypedpyModel.Lemmas.Sound
 import TypedpyModel.Sem.Entry
 import TypedpyModel.Lemmas.Formats
+import TypedpyModel.Sem.Decimal
 namespace Typedpy.C01
 open Typedpy
 
@@ -240,6 +241,31 @@ theorem chain_sized_field_sound (O : Oracles)
   have := hc.1.2
   simp [leLen] at this
   exact ⟨s, rfl, by omega, by omega⟩
+
+/-- **DecimalNumber**: whatever the field stores is a Decimal that satisfies the declared multiplesOf / minimum /
+    maximum / exclusiveMaximum (`conforms` of the `number` declaration the field stands for) -/
+theorem decimal_field_sound (parse : String → Option Q) (O : Oracles) (o : NumOpts) (v w : PyVal)
+    (h : vDecimal parse o v = .ok w) : conforms O (.number o) w = true ∧ ∃ q, w = .dec q := by
+  unfold vDecimal at h
+  rcases bindE_eq_ok h with ⟨d, hd, h2⟩
+  unfold toDecimal at hd
+  cases hq : decValue parse v <;> rw [hq] at hd <;> simp at hd
+  subst hd
+  have := validate_sound O (.number o) _ w rfl (by simpa [validate] using h2)
+  refine ⟨this, ?_⟩
+  simp only [vNumber, PyVal.asNum] at h2
+  split at h2 <;> simp at h2
+  exact ⟨_, h2.symm⟩
+
+/-- a class with DecimalNumber fields (the conversion layer in front of the constructor): whatever it returns is
+    well-formed for the class and accepted by the class's hook -/
+theorem constructD_sound (parse : String → Option Q) (O : Oracles) (cls : FieldDecl) (decs : List (String × DecPos))
+    (kw : List (String × PyVal)) (x : PyVal) (hw : wfDecl cls = true)
+    (h : constructD parse O cls decs kw = .ok x) :
+    wellFormed O cls x = true ∧ O.hookOk (instAttrs x) = true := by
+  unfold constructD at h
+  rcases bindE_eq_ok h with ⟨kw', _, h2⟩
+  exact constructH_sound O cls kw' x hw h2
 
 /-- non-vacuity: a class with an IPV4 array and a SizedString, through constructor and clone -/
 theorem formatted_example :
